@@ -168,6 +168,16 @@ func emitDavRead(o *Out, r *RNG) {
 	m, paths := randMemFS(r)
 	hc := &handlerClient{h: &webdav.Handler{FileSystem: m}}
 	c, _ := webdav.NewClient(hc, "http://example.com/")
+	// the same resources addressed by names relative to an endpoint with a path
+	rel := func(p string) (*webdav.Client, string) {
+		for _, q := range paths {
+			if strings.HasSuffix(q, "/") && q != "/" && strings.HasPrefix(p, q) && p != q {
+				cl, _ := webdav.NewClient(hc, "http://example.com"+(&url.URL{Path: q}).String())
+				return cl, strings.TrimPrefix(p, q)
+			}
+		}
+		return c, p
+	}
 	ctx := context.Background()
 	var tree []string
 	keys := append([]string(nil), paths...)
@@ -184,6 +194,15 @@ func emitDavRead(o *Out, r *RNG) {
 			}
 			return sxFileInfo(got)
 		}))
+		if cl, name := rel(p); cl != c && !strings.HasSuffix(name, "/") {
+			o.Emit("dav.stat", sxFileInfo(fi), guard(func() string {
+				got, err := cl.Stat(ctx, name)
+				if err != nil {
+					return errStr(err)
+				}
+				return sxFileInfo(got)
+			}))
+		}
 		if !fi.IsDir {
 			want := m.content[p]
 			o.Emit("dav.open", hx(string(want)), guard(func() string {
